@@ -140,16 +140,24 @@ class FutureResult(object):
         self.__callback = None
         self.__extra = None
 
-    def __notify(self):
+        # Protects the callback, its extra argument and the completion flag:
+        # they decide which of execute() and set_callback() notifies
+        self.__lock = threading.Lock()
+        self.__completed = False
+
+    def __notify(self, callback, extra):
         """
         Notify the given callback about the result of the execution
+
+        :param callback: The method to call back (can be None)
+        :param extra: The extra parameter associated to the callback
         """
-        if self.__callback is not None:
+        if callback is not None:
             try:
-                self.__callback(
+                callback(
                     self._done_event.data,
                     self._done_event.exception,
-                    self.__extra,
+                    extra,
                 )
             except Exception as ex:
                 self._logger.exception("Error calling back method: %s", ex)
@@ -165,11 +173,15 @@ class FutureResult(object):
         :param method: The method to call back in the end of the execution
         :param extra: Extra parameter to be given to the callback method
         """
-        self.__callback = method
-        self.__extra = extra
-        if self._done_event.is_set():
-            # The execution has already finished
-            self.__notify()
+        with self.__lock:
+            self.__callback = method
+            self.__extra = extra
+            completed = self.__completed
+
+        if completed:
+            # The execution has already finished and has notified (or found)
+            # the callback registered at that time: notify this one now
+            self.__notify(method, extra)
 
     def execute(self, method, args, kwargs):
         """
@@ -199,8 +211,14 @@ class FutureResult(object):
             # Store the result
             self._done_event.set(result)
         finally:
-            # In any case: notify the call back (if any)
-            self.__notify()
+            # In any case: notify the call back (if any).
+            # Callbacks registered from now on are notified by set_callback()
+            with self.__lock:
+                self.__completed = True
+                callback = self.__callback
+                extra = self.__extra
+
+            self.__notify(callback, extra)
 
     def done(self):
         """
